@@ -229,6 +229,10 @@ def oracle_c03(cases, impl, model):
             if item[0] != "ans":
                 continue
             terms = [P.to_term(x) for x in item[1]]
+            if c.get("expect_constrained") and not [cc for cc in item[2] if cc != ["other"]]:
+                fails.append({"case_index": k, "what": "the program posts a disequality on a variable that stays unbound and occurs in the answer, "
+                              "but the answer reports no constraint: %s" % (item[1],)})
+                break
             tv = []
             for t in terms:
                 P.term_vars(t, tv)
@@ -297,6 +301,19 @@ def run_c03(tier, seed, replay=None):
         if rnd.random() < 0.3:
             gs.append(["neq", "r", k])          # a relevant constraint next to the irrelevant one
         cases.append(mk_case([], ["q", "r"], [["fresh", ["a", "b", "c"]] + gs]))
+    # a query variable bound TO an anonymous `_` written in the program (the `_` is the representative of the class), with a
+    # disequality on that class: the answer shows a reified variable and must carry the constraint
+    for _ in range(n // 4):
+        v = rnd.randint(1, 9)
+        bind = rnd.choice([[["eq", "q", "_"]], [["eq", "_", "q"]], [["eq", ["list", "x", 1], ["list", "_", 1]], ["eq", "q", "x"]],
+                           [["eq", "q", ["list", 0, "x"]], ["eq", "x", "_"]], [["eq", "x", "_"], ["eq", "q", ["comp", "Pair", "x", "x"]]],
+                           [["eq", ["list", "q", "r"], ["list", "_", "_"]]]])
+        tgt = "q" if bind[0][1] in ("q", "_") and len(bind) == 1 else ("x" if any("x" in map(str, b[1:]) or b[1] == "x" for b in bind) else "q")
+        if bind == [[["eq", ["list", "q", "r"], ["list", "_", "_"]]]][0]:
+            tgt = rnd.choice(["q", "r"])
+        neq = ["neq", tgt, v] if rnd.random() < 0.5 else ["neq", v, tgt]
+        goals = bind + [neq] if rnd.random() < 0.6 else [neq] + bind
+        cases.append(mk_case([], ["q", "r"], [["fresh", ["x"]] + goals], expect_constrained=True))
     return pcheck.run_check("C03", tier, seed, cases, "exact", oracle_c03, cone=["Proofs/ReifyProofs.vo", "Proofs/EngineProofs.vo", "Proofs/ScopeReify.vo"], replay=replay,
         rule="programs of ==, !=, fresh, conde over lists and four compound types with 1-3 query variables sharing free variables, plus "
              "constraints on hidden variables and on variables nested in compounds/lists; every answer is checked: only reified variables in "
